@@ -12,12 +12,12 @@ EXPLANATION = ("A catalogue of operation scripts over Matrix_/Vector_/RowVector_
                "of every result is proved equal to the reference: + - * /scalar, matrix*matrix, matrix*vector, row*matrix, elementwise product, += -= *= /= also through views, transposes, "
                "sums, normSqr/norm/normRMS (norm^2 against the sum of squares, norm >= 0), scalar assignment, setTo, resize/resizeKeep (kept block unchanged, new shape), deep copies vs shallow "
                "views (writes through a view change exactly the viewed elements: the whole matrix is compared after each write), empty shapes (0 rows/columns); fixed-size arithmetic, dot, "
-               "outer product, det (1..5), Mat<N,N>::invert with A*inv(A) = I and inv(A)*b (1..3 closed forms; 4..6 through LAPACK dgetrf/dgetri), SymMat arithmetic/det/inverse, cross products "
+               "outer product, det (1..5), Mat<N,N>::invert with A*inv(A) = I and inv(A)*b (1..3 closed forms; 4, 5 through LAPACK dgetrf/dgetri), SymMat arithmetic/det/inverse, cross products "
                "(%, cross, crossMat, crossMatSq, Vec3 % Mat33), negator<> and conjugate<> adaptors (reads, arithmetic and writes through negated views; Hermitian transpose of a complex Vec).")
-BOUNDS = ("all elements free (free set ALL) except Mat<N,N>::invert for N = 4..6 (three matrix entries free at a time plus the right-hand side, the others pinned at rational seeds; 2 quick / 4 thorough "
+BOUNDS = ("all elements free (free set ALL) except Mat<N,N>::invert for N = 4, 5 (three matrix entries free at a time plus the right-hand side, the others pinned at rational seeds; 2 quick / 3 thorough "
           "choices), element type Real; dynamic shapes 0..5 (arith 3x4, 0x3, 3x0, 1x1, 5x2; matmul 3x4x2, 2x0x3, 0x3x2, 1x1x1; views/writes on 4x5; vectors 0,1,5), fixed sizes "
-          "1..6; inverse N=4..6 at the executed pivoting path only (paths explored by flipping: budget 4)")
-NOT_COVERED = ("element types float, Complex, Vec3, SpatialVec for the dynamic classes; shapes above 6; Mat<N,N>::invert for N >= 4 runs through the instrumented LAPACK *model* "
+          "1..6; inverse N=4,5 at the executed pivoting path plus one flipped path")
+NOT_COVERED = ("Mat<6,6>::invert (the cleared polynomials of a symbolic 6x6 LU exceed the time budget even with two free entries); element types float, Complex, Vec3, SpatialVec for the dynamic classes; shapes above 6; Mat<N,N>::invert for N >= 4 runs through the instrumented LAPACK *model* "
                "(engine/symfp/lapack_model.cpp: reference dgetrf/dgetri), not the external LAPACK binary: stubbed environment; the member SymMat<N>::invert() is an unimplemented stub in the "
                "library (assert(false) in Debug, returns an uninitialised matrix in Release; reproducer seeded/known/C25/symmat_invert_stub.cpp) and cannot be executed symbolically; "
                "triangular/symmetric storage classes of the dynamic Matrix_; rounding")
@@ -38,8 +38,8 @@ def instances(tier, seed):
         out.append(dict(name="vector:%d" % n, args=["vector", str(n)], base_points=1))
     for n in range(1, 7):
         out.append(dict(name="vecN:%d" % n, args=["vecN", str(n)], base_points=1))
-    for n in range(1, 7) if tier != "quick" else (1, 2, 3, 4, 5):
-        out.append(dict(name="inv:%d" % n, args=["inv", str(n)], base_points=1, paths=1 if n <= 3 else (2 if tier == "quick" else 4), flip_timeout_ms=3000, max_terms=60000))
+    for n in (1, 2, 3, 4, 5):
+        out.append(dict(name="inv:%d" % n, args=["inv", str(n)], base_points=1, paths=1 if n <= 3 else 2, flip_timeout_ms=3000, max_terms=60000))
     return out
 
 
@@ -49,7 +49,7 @@ def free_sets(inst, tr, tier, rng):
         # the others pinned at their rational seeds; b always free (linear)
         n = int(inst["args"][1])
         b = ["b_%d" % i for i in range(n)]
-        picks = [[(0, 0), (1, 2), (n - 1, 1)], [(0, n - 1), (2, 2), (n - 2, 0)]] + ([[(1, 1), (3, 0), (0, 2)], [(n - 1, n - 1), (2, 3), (1, 0)]] if tier != "quick" else [])
+        picks = [[(0, 0), (1, 2), (n - 1, 1)], [(0, n - 1), (2, 2), (n - 2, 0)]] + ([[(1, 1), (3, 0), (0, 2)]] if (tier != "quick" and n <= 5) else [])
         return [b + ["A_%d_%d" % ij for ij in p] for p in picks]
     return ["ALL"]
 
